@@ -141,7 +141,7 @@ func (g *gen) response(depth int, tags []rscp.Tag, unusual bool) rscp.Message {
 		m.Value = f
 	case rscp.Timestamp:
 		if !unusual {
-			m.Value = time.Unix(int64(g.pick(253402300799)), int64(g.pick(1000000000))).UTC()
+			m.Value = time.Unix(g.r.Int63n(253402300799), int64(g.pick(1000000000))).UTC()
 		}
 	}
 	return m
